@@ -41,9 +41,11 @@ def confirm(out_dir, meta):
     if m:
         feats = m.group(1).strip(",")
     fargs = ["--features", feats] if feats else []
+    if re.search(r"(^|\s)--release(\s|$)", meta.get("demo_cmd", "")):
+        fargs = ["--release"] + fargs          # the demonstration needs the release profile
     os.makedirs(os.path.join(EVAL, "tests"), exist_ok=True)
     shutil.copy(demo, os.path.join(EVAL, "tests", "demo.rs"))
-    res = {"features": feats}
+    res = {"features": feats, "profile": "release" if "--release" in fargs else "debug"}
     rc, out = sh(["cargo", "test", "--offline", "--test", "demo"] + fargs, cwd=EVAL)
     res["demo_on_clean"] = "pass" if rc == 0 else "FAIL"
     res["demo_on_clean_tail"] = out[-600:] if rc else ""
@@ -55,7 +57,7 @@ def confirm(out_dir, meta):
     rc, out = sh(["cargo", "test", "--offline", "--test", "demo"] + fargs, cwd=EVAL)
     res["demo_with_change"] = "fail (as required)" if rc != 0 else "PASSES (change not demonstrated)"
     os.remove(os.path.join(EVAL, "tests", "demo.rs"))
-    rc, out = sh(["cargo", "test", "--offline", "--lib"] + fargs, cwd=EVAL)
+    rc, out = sh(["cargo", "test", "--offline", "--lib"] + [a for a in fargs if a != "--release"], cwd=EVAL)
     mm = re.search(r"test result: (\w+)\. (\d+) passed; (\d+) failed", out)
     res["suite_with_change"] = ("%s %s passed %s failed" % mm.groups()) if mm else ("rc=%d %s" % (rc, out[-300:]))
     sh(["git", "checkout", "--", "."], cwd=EVAL)
